@@ -550,7 +550,9 @@ fn session(index: usize, mut rng: Rng, scratch: &Path, tier: &str) -> SessionRes
                     kind = Kind::UpdateStale;
                     args = vec![s("workspace"), s("update-stale")];
                 }
-                28 | 29 if w.ops.len() >= 3 => {
+                // (not in colocated repos: there an --at-op command moves Git HEAD and the next
+                // command imports it as an extra operation, which the model does not describe)
+                28 | 29 if w.ops.len() >= 3 && !colocated => {
                     // a command run at an older operation: no snapshot, no checkout, and its
                     // operation becomes a second head that the next command merges
                     let x = rng.range(1, w.ops.len() as u64 - 1) as usize;
